@@ -13,7 +13,7 @@ CLAIMS = {
         "Decides necessary structural clauses for all 30 exported pool strategies and their helpers: the batch size every query uses is the clipped "
         "value returned by the validator (and the validator clips); arrays scattered through the candidate mapping are NaN-filled (only candidates carry numbers); "
         "in each of the 15 sequential selection loops the operand of the selection depends on earlier picks (loop-carried) and the masked picks are the returned picks; "
-        "the exclusion is an explicit mechanism that lies on every path to the selection, is not overwritten before it, and - where a helper sees only the latest pick - is carried from the previous row by a must value-flow; positions selected over a shrunk or sub-sampled pool are translated back; reductions over NaN-marked utilities are NaN-aware, constant arrays over all samples never serve as utilities, the de-duplicated candidate indices are the ones used, the clip bound counts candidate rows (not array elements), a selector computed from a pool mask before the loop is not used stale inside it; no local is read unbound on any feasible (branch-correlated) path; multi-element index draws are without replacement. "
+        "the exclusion is an explicit mechanism that lies on every path to the selection, is not overwritten before it, and - where a helper sees only the latest pick - is carried from the previous row by a must value-flow; positions selected over a shrunk or sub-sampled pool are translated back; reductions over NaN-marked utilities are NaN-aware, constant arrays over all samples never serve as utilities, the de-duplicated candidate indices are the ones used, the clip bound counts candidate rows (not array elements), a selector computed from a pool mask before the loop is not used stale inside it, a mask on this iteration's fresh row covers all earlier picks and survives to the selection on every path, a reset of the carried row re-marks the picks, min-max denominators are offset, and the returned index value is a 1-d ndarray on every path (abstract kinds); no local is read unbound on any feasible (branch-correlated) path; multi-element index draws are without replacement. "
         "Not decided: that custom loops fill all slots, numerical termination, dtype of the result.",
         "Dependence is flow-insensitive within a loop body (necessary condition); 6 infeasible definite-assignment residuals are listed one symbol at a time in the checker.",
         "DESIGN.md section 3 C01",
@@ -21,7 +21,7 @@ CLAIMS = {
     "C02": (
         "statement-order (structural dominance) and dependence analysis of selection loops; NaN-discipline of scatter targets",
         "Decides: in every selection loop the NaN mask of the current pick is applied only after the returned row was snapshotted (or to an array that is not returned); "
-        "a mask of earlier picks on the returned row is matched by an exclusion in the operand the selection reads; utilities scattered through the mapping are NaN elsewhere; the exclusion reaches the selection on every path and zero-mass masks are only scaled before a draw; for sampling-based selections the distribution handed to choice(p=...) is the recorded row; masks of earlier picks precede the step's selection; rand_argmax breaks ties among exact maxima only; the base-class clip exists, counts rows, and works on de-duplicated indices (so no row is without a selectable winner). "
+        "a mask of earlier picks on the returned row is matched by an exclusion in the operand the selection reads; utilities scattered through the mapping are NaN elsewhere; the exclusion reaches the selection on every path and zero-mass masks are only scaled before a draw; for sampling-based selections the distribution handed to choice(p=...) is the recorded row; masks of earlier picks precede the step's selection; rand_argmax breaks ties among exact maxima only; the base-class clip exists, counts rows, and works on de-duplicated indices (so no row is without a selectable winner); min-max denominators are offset (no 0/0 rows); the wrapper strategies hand on whole columns with their NaN marks and never bypass the scatter / simple_batch. "
         "The numerical arg-max relation and the sampling mass as numbers are not decided.",
         "Structured control flow only; the arg-max relation is the contract of rand_argmax (C18).",
         "DESIGN.md section 3 C02",
@@ -38,7 +38,7 @@ CLAIMS = {
         "interprocedural effect analysis (abstract interpretation over the AST) + structural dominance of save/restore pairs",
         "Decides the purity clause: every write to state reachable from self on every path of query/query_by_utility "
         "(13 stream strategies, 7 concrete budget managers, callees inlined) is either an idempotent re-derivation or is "
-        "bracketed by a dominating copy-save and a post-dominating restore (RNG: get_state/set_state; also tuple-packed saves). Each entity is analysed in three views of the lazily created state (hasattr unknown / fresh object / everything exists), the worst verdict counts. All paths, all inputs; "
+        "bracketed by a dominating copy-save and a post-dominating restore (RNG: get_state/set_state; also tuple-packed saves). A query that fits / alters the estimator the caller passes in is reported too. Each entity is analysed in three views of the lazily created state (hasattr unknown / fresh object / everything exists), the worst verdict counts. All paths, all inputs; "
         "numerical equality of repeated results is not decided.",
         "Trusts the alias/in-place tables for numpy/sklearn calls; exception paths between save and restore are not modelled.",
         "DESIGN.md section 3 C03",
@@ -48,7 +48,7 @@ CLAIMS = {
         "Decides the four structural premises of the bound for the 6 budget-enforcing managers and the 2 baseline strategies: every grant is reachable/true only "
         "under the budget guard of its iteration (through guard variables, list-tail reads, conditional expressions; only allow_exceeding_budget may disjoin); the guard "
         "compares the running spent-estimate with budget_ in the admitting direction; the estimate is advanced from its previous value and the grant indicator on every path; "
-        "update commits every seeding attribute from queried_indices/candidates, with the same per-candidate transition the simulation applies (syntactic agreement after normalisation, including the conditions under which an indicator-guarded transition runs); budget_ is re-derived on every validation; the commit runs once per observed instance (an update called inside a per-instance loop receives a one-instance slice) and its increments are counts (rows of candidates, number of queried indices - never element counts of the 2-d candidates or reductions over index values). The numerical bound itself follows by arithmetic that is not in the code and is not decided.",
+        "update commits every seeding attribute from queried_indices/candidates, with the same per-candidate transition the simulation applies (syntactic agreement after normalisation, including the conditions under which an indicator-guarded transition runs); budget_ is re-derived on every validation; the commit runs once per observed instance (an update called inside a per-instance loop receives a one-instance slice) and its increments are counts (rows of candidates, number of queried indices - never element counts of the 2-d candidates or reductions over index values); the budget manager is built once (guard implies it does not exist yet) and with self.budget; query and update filter instances with the same tests. The numerical bound itself follows by arithmetic that is not in the code and is not decided.",
         "Strict vs non-strict comparison is not judged; BalancedIncrementalQuantileFilter is excluded (not budget-enforcing).",
         "DESIGN.md section 3 C04",
     ),
@@ -56,14 +56,14 @@ CLAIMS = {
         "path-sensitive definite assignment over the 3x3 argument split, boolean-by-construction typing of the availability mask, loop dependence/order rules, syntactic termination classes for while loops",
         "Decides: both base-class helpers bind their results on every feasible candidates x annotators combination and clip the batch size; every definition of the availability mask is boolean by construction; "
         "unavailable pairs are NaN before combination and every chosen pair is masked in all later steps before the next selection; every while loop of the package is in a syntactically terminating class; "
-        "sample indices are translated through the mapping and the annotator column is not; every scatter/index translation through the mapping runs on exactly the candidates x annotators cases in which _transform_cand_annot returns a mapping (3-valued evaluation of the guards over all 9 cases); the clip bound counts pairs as rows x annotators and index arrays are de-duplicated; the annotator-assignment step iterates a bounded loop and caps every per-sample count by the available annotators. That n_annotators_per_sample is honoured numerically is not decided.",
+        "sample indices are translated through the mapping and the annotator column is not; every scatter/index translation through the mapping runs on exactly the candidates x annotators cases in which _transform_cand_annot returns a mapping (3-valued evaluation of the guards over all 9 cases); the clip bound counts pairs as rows x annotators and index arrays are de-duplicated; the annotator-assignment step iterates a bounded loop and caps every per-sample count by the available annotators, compares the batch size with the sum of the capped counts, and offers the wrapped strategy only samples with an available annotator; the multi-annotator classes partition labels with their sentinel. That n_annotators_per_sample is honoured numerically is not decided.",
         "R7.4 is a proof obligation over two recognised loop classes, not a proof of divergence.",
         "DESIGN.md section 3 C07",
     ),
     "C08": (
         "abstract index-space typing (XROW / CAND / MASK(m)) of arrays and positions with one-level callee summaries",
         "Decides index-space agreement where both sides are known (subscripts and (array, position) pairs passed to project helpers) and that the raw candidates parameter is used only for representation tests "
-        "after _transform_candidates; a per-candidate scoring loop does not read the set of all candidates; the argument in the role of the given samples does not depend on the candidate representation; the number of candidates is never an operand of a score; reductions over NaN-marked arrays are NaN-aware; reads of the current model of the index wrapper precede every hypothetical refit, which starts from a private copy of the base model; the frequency classifiers normalise and fall back row by row. Restriction invariance and permutation equivariance of the numbers are not decided.",
+        "after _transform_candidates; a per-candidate scoring loop does not read the set of all candidates; the argument in the role of the given samples does not depend on the candidate representation; the number of candidates is never an operand of a score; reductions over NaN-marked arrays are NaN-aware; reads of the current model of the index wrapper precede every hypothetical refit, which starts from a private copy of the base model; the frequency classifiers normalise and fall back row by row; no statistic over all candidate rows scales a per-candidate matrix and counts are not taken over the candidate mapping; index and feature-row candidates are filtered alike in the multi-annotator wrapper. Restriction invariance and permutation equivariance of the numbers are not decided.",
         "Spaces are inferred only from the idioms listed in the checker; unknown never fires (few pairs are typed on today's tree).",
         "DESIGN.md section 3 C08",
     ),
@@ -109,7 +109,7 @@ CLAIMS = {
         "interprocedural alias/ownership analysis: who may write constructor parameters, caller arrays and caller models",
         "Decides the ownership clauses for all 32 pool query entities with callees inlined: no reachable store to / in-place "
         "mutation of a constructor parameter (or an object aliased to it), no in-place writer applied to a value that may alias "
-        "an argument array (through validation helpers, views, slices), fit/partial_fit/set_params only on fresh clones (set_params on a clone is modelled: references it stores are followed into the clone's fit); draws that consume a RandomState held by the constructor parameter count as a mutation of it. "
+        "an argument array (through validation helpers, views, slices), fit/partial_fit/set_params only on fresh clones (set_params on a clone is modelled: references it stores are followed into the clone's fit); draws that consume a RandomState held by the constructor parameter count as a mutation of it; external estimators built with an explicit no-copy option work in place on what they are fitted on; no closure / lambda created in a query is stored on the strategy (picklability). "
         "All paths, all configurations; byte-wise equality and picklability in general are not decided.",
         "Aliasing is under-approximated (unknown external calls return fresh objects); numpy/sklearn calls write their inputs only if listed in the in-place tables.",
         "DESIGN.md section 3 C05",
@@ -118,7 +118,7 @@ CLAIMS = {
         "RNG provenance analysis (taint over an interprocedural abstract interpretation with constant propagation) + syntactic scan for global draws",
         "Decides the provenance clause: every random draw reachable from any public method of any estimator class or public helper "
         "(numpy generator methods and scipy `.rvs(random_state=...)`, also through one level of re-entrant helpers such as nested conditional expectations) derives from self.random_state(_)/a random_state argument/a literal seed and never from numpy's global generator "
-        "(random_state=None or omitted on the call path, seedless external estimators), pool queries do not consume a caller-supplied RandomState (own draws or external estimators handed the raw object), and stream strategies / budget managers keep evolving state out of objects held by constructor parameters (twins); a keyword reaching a constructor through **dict on some paths only is treated as possibly defaulted; every fit re-derives random_state_. "
+        "(random_state=None or omitted on the call path, seedless external estimators), pool queries do not consume a caller-supplied RandomState (own draws or external estimators handed the raw object), and stream strategies / budget managers keep evolving state out of objects held by constructor parameters (twins); a keyword reaching a constructor through **dict on some paths only is treated as possibly defaulted; every fit re-derives random_state_; pool queries write no object held by a constructor parameter (twins). "
         "Bit-wise equality of outputs and determinism of third-party numerical code are not decided.",
         "Table of external estimators that draw in fit; random_state=None chosen by the user is outside the premise.",
         "DESIGN.md section 3 C06",
